@@ -271,7 +271,11 @@ def check_single(sc, tr, rc):
     if drained and policy == "conflate" and accepted and ids:
         nsrc = max(1, int(kv.get("sources", 1)))
         for src in range(nsrc):
-            lasts = {acc[-1] for p, acc in by_prod.items() if (p - 1) % nsrc == src}
+            mine = {p: acc[-1] for p, acc in by_prod.items() if (p - 1) % nsrc == src}
+            # the value the source is left with is the last accepted one: a producer's last value that no other producer's last
+            # accepted send can have followed (its call began after this one had returned)
+            lasts = {v for p, v in mine.items()
+                     if not any(q != p and accepted[w][3] > accepted[v][4] for q, w in mine.items())}
             got = [i for d in tr.deliveries if d[5] == src for i in d[4]]
             if lasts and (not got or got[-1] not in lasts):
                 V.append(f"conflating source {src}: last delivered value {got[-1] if got else None} is not the latest accepted value of any of its "
@@ -314,6 +318,7 @@ def main(tier, seed, replay):
         if verdict == "inconclusive":
             inconc.append(f"{sc.name}: {V[0]}")
         elif V:
+            sc.observed = getattr(tr, "raw", "")
             hard.append((sc, V))
         if int(sc.kv["producers"]) >= 2 or C.get("scenarios_queue_filled"):
             nontriv.add(sig_hash(sc.text()))
@@ -344,7 +349,8 @@ def main(tier, seed, replay):
         os.makedirs(os.path.join(REPLAYS, PROPERTY), exist_ok=True)
         for sc, V in hard[:5]:
             path = os.path.join(REPLAYS, PROPERTY, f"{sc.name}.json")
-            json.dump({"property": PROPERTY, "scenario": {"name": sc.name, "kv": sc.kv}, "violation": {"what": V[0], "all": V[:10]}}, open(path, "w"), indent=1)
+            json.dump({"property": PROPERTY, "scenario": {"name": sc.name, "kv": sc.kv}, "violation": {"what": V[0], "all": V[:10]},
+                       "observed_trace": getattr(sc, "observed", "").splitlines()}, open(path, "w"), indent=1)
             print(f"VIOLATION property={PROPERTY} replay={path}")
             for m in V[:3]:
                 print(f"  {m}")
